@@ -44,12 +44,17 @@ def rand_gate(rng, N, kinds=('gen', 'fmap', 'bmap', 'named', 'cnot')):
     k = rng.choice([1, 1, 2, 2, 3]) if N >= 3 else rng.randrange(1, N + 1)
     k = min(k, N)
     qubits = sorted(rng.sample(range(N), k))
+    # the library places a gate through the boolean mask of its qubit set, i.e. the listed order is ignored; a gate on the
+    # whole register is sometimes given with its qubits listed in another order (the action must not depend on it)
+    order = list(qubits)
+    if k == N and k > 1 and rng.random() < 0.5:
+        rng.shuffle(order)
     if kind == 'gen':
         # generator with full support on its qubits (as clifford_rotation_gate produces after condensing)
         g = (tuple(rng.choice('XYZ') for _ in range(k)), rng.choice((0, 2)))
-        return dict(kind='gen', qubits=qubits, gen=g)
+        return dict(kind='gen', qubits=qubits, gen=g, order=order)
     F, Fi = rand_map_pair(rng, k)
-    return dict(kind=kind, qubits=qubits, F=F, Fi=Fi)
+    return dict(kind=kind, qubits=qubits, F=F, Fi=Fi, order=order)
 
 
 def rand_program(rng, N, length, kinds=('gen', 'fmap', 'bmap', 'named', 'cnot')):
@@ -62,7 +67,7 @@ def impl_gate(impl, d):
         return getattr(CI, d['name'])(*d['qubits'])
     if d['kind'] == 'cnot':
         return CI.CNOT(d['c'], d['t'])
-    g = CI.CliffordGate(*d['qubits'])
+    g = CI.CliffordGate(*d.get('order', d['qubits']))
     if d['kind'] == 'gen':
         g.set_generator(impl.pauli(d['gen']))
     elif d['kind'] == 'fmap':
@@ -73,7 +78,7 @@ def impl_gate(impl, d):
 
 
 def model_take(drv, cid, d):
-    qs = E.eints([d['c'], d['t']] if d['kind'] == 'cnot' else d['qubits'])
+    qs = E.eints([d['c'], d['t']] if d['kind'] == 'cnot' else d.get('order', d['qubits']))
     if d['kind'] == 'gen':
         return drv.ask('circ %s gen %s %s' % (cid, qs, E.epauli(O.to_g(d['gen'][0]), d['gen'][1])))
     if d['kind'] == 'bmap':
